@@ -114,19 +114,22 @@ def run_seq(ctx, PooledClient, seq, cfg, rng):
             return None
         raised = bool(rec["raised"])
         is_quit = call["op"] == "quit"
+        # a shutdown the server answers by hanging up: `Client.shutdown` swallows the "unexpected close", so the call returns normally - but the
+        # connection is finished all the same (closed by the inner client, which goes back to the pool without one)
+        ended = call["op"] == "shutdown" and not raised and bool(fault) and tuple(fault.get("recv_fault", (None, None)))[1:2] == ("eof",)
         # a connection is closed for a reason: the call on it failed, quit(), or it had idled out when the pool looked at it
         for c_closed in sorted(closed_conns - closed_before):
             expired = idle != 0 and prev_ok is not None and prev_ok[0] == c_closed and now - prev_ok[1] > idle
-            if not (raised or is_quit or expired):
+            if not (raised or is_quit or ended or expired):
                 ctx.violation("a healthy connection was closed although the call on it did not fail (and it had not idled out)", dict(case, conn=c_closed), tags=["healthy-closed"])
                 return None
-        if io is not None and io in closed_conns - ({io} if (raised or is_quit) else set()) and not (raised or is_quit):
+        if io is not None and io in closed_conns - ({io} if (raised or is_quit or ended) else set()) and not (raised or is_quit or ended):
             ctx.violation("a closed connection was used again", dict(case, conn=io), tags=["failed-reused"])
             return None
-        if (raised or is_quit):
+        if (raised or is_quit or ended):
             for rc in {e[1] for e in L if e[0] in ("sendall", "recv", "connect") and e[1] is not None}:
                 if not W.conns[rc].closed:
-                    ctx.violation("a connection on which a call failed was not closed", dict(case, conn=rc), tags=["failed-not-closed"])
+                    ctx.violation("a connection on which a call failed (or which the server closed in answer to shutdown) was not closed", dict(case, conn=rc), tags=["failed-not-closed"])
                     return None
             last_ok_before = last_ok
             last_ok = None
@@ -144,6 +147,8 @@ def run_seq(ctx, PooledClient, seq, cfg, rng):
         touched = any(e[0] in ("sendall", "recv", "connect", "socket", "getaddrinfo") for e in L)
         if is_quit:
             body = ("quitFail1" if (connected_now or any(e[0] in ("sendall",) for e in L)) else "quitFail0") if raised else "quitOk"
+        elif ended:
+            body = "swal" + ("1" if connected_now else "0")      # the model's "the inner call ended its connection and returned normally"
         elif not raised:
             body = "ok"
         elif not touched:
@@ -204,7 +209,14 @@ def main(argv):
     for g1 in fgaps[1:]:
         frac.append(((0, ALPHA[1], FAULTS[3]), (g1, ALPHA[1], None), (g1, ALPHA[0], None)))
     nfrac = len(frac) * len(frac_cfgs)
-    seqs = [(fc, sq) for sq in frac for fc in frac_cfgs] + [(None, sq) for sq in seqs]
+    # shutdown: answered by a hang-up (success), by an error line, by any fault - then the pool is used again
+    SHUT, HANGUP = {"op": "shutdown", "g": False}, {"recv_fault": (0, "eof")}
+    shut = []
+    for f in [HANGUP, HANGUP] + FAULTS + [None]:
+        for g in (0, 11):
+            shut.append(((0, ALPHA[0], None), (g, SHUT, f), (0, ALPHA[1], None), (11, ALPHA[1], None)))
+            shut.append(((g, SHUT, f), (0, ALPHA[0], None), (5, SHUT, HANGUP), (5, ALPHA[1], None)))
+    seqs = [(fc, sq) for sq in frac for fc in frac_cfgs] + [(None, sq) for sq in seqs] + [(cf, sq) for cf in cfgs for sq in shut]
     n = 0
     for i, (fcfg, seq) in enumerate(seqs):
         cfg = fcfg or cfgs[i % len(cfgs)]
